@@ -187,4 +187,441 @@ theorem joinMap_build_err (rhs : List (Option Nat)) (B : Table) (e : EngErr) (h 
   rw [joinBError_eq] at h
   exact build_inv_err rhs B 0 {} e h
 
+/-! ## (2) the main loop feeds the emissions to the writer chain -/
+
+theorem feedStop_nil (c : Chain) : c.feedStop [] = (c, true) := rfl
+
+theorem feedStop_append (c : Chain) (xs ys : List (List Val × Row)) :
+    c.feedStop (xs ++ ys) =
+      if (c.feedStop xs).2 then (c.feedStop xs).1.feedStop ys else c.feedStop xs := by
+  induction xs generalizing c with
+  | nil => simp [Chain.feedStop]
+  | cons x xs ih =>
+    obtain ⟨k, r⟩ := x
+    simp only [List.cons_append, Chain.feedStop]
+    by_cases hw : (c.write k r).2 = true
+    · simp [hw, ih]
+    · simp [hw]
+
+theorem feedStop_singleton (c : Chain) (k : List Val) (r : Row) : c.feedStop [(k, r)] = c.write k r := by
+  simp only [Chain.feedStop]
+  by_cases hw : (c.write k r).2 = true
+  · rw [if_pos hw]; exact Prod.ext rfl hw.symm
+  · rw [if_neg hw]; simp only [Bool.not_eq_true] at hw; exact Prod.ext rfl hw.symm
+
+theorem emitRows_go_eq (key : List Val) (row : Row) (pos : Nat) (c : Chain) (l : List Atom) :
+    emitRows.go key row pos c l = c.feedStop (l.map (fun v => (key, row.set pos (.at v)))) := by
+  induction l generalizing c with
+  | nil => rfl
+  | cons v vs ih =>
+    simp only [emitRows.go, List.map_cons, Chain.feedStop]
+    by_cases hw : (c.write key (row.set pos (.at v))).2 = true
+    · simp [hw, ih]
+    · simp [hw]
+
+/-- the loop state after handing `out` to the writer chain (until the first refused write) -/
+def LoopState.fed (st : LoopState) (out : List (List Val × Row)) : LoopState :=
+  { st with chain := (st.chain.feedStop out).1, stop := st.stop || !(st.chain.feedStop out).2 }
+
+theorem emitRows_eq (st : LoopState) (key : List Val) (row : Row) (un : Option (Nat × List Atom)) :
+    emitRows st key row un =
+      st.fed (match un with
+        | none => [(key, row)]
+        | some (pos, l) => l.map (fun v => (key, row.set pos (.at v)))) := by
+  cases un with
+  | none => simp only [emitRows, LoopState.fed, feedStop_singleton]
+  | some pl =>
+    obtain ⟨pos, l⟩ := pl
+    simp only [emitRows, LoopState.fed, emitRows_go_eq]
+
+/-- for a non-aggregate query, processing one environment = feeding its projection -/
+theorem processSelect_eq (q : SemQuery) (hagg : q.isAgg = false) (st : LoopState) (e : Env) :
+    processSelect q st e = (projectEnv q e).map st.fed := by
+  unfold processSelect projectEnv
+  simp only [hagg]
+  generalize liftErr e.nr (match q.where_ with | some w => w e | none => Except.ok true) = r1
+  generalize liftErr e.nr (match q.exceptCols with
+    | some cols => Except.ok (selectExcept e.a cols, none)
+    | none => evalItems q.items e) = r2
+  generalize liftErr e.nr (match q.orderBy with | some g => g e | none => Except.ok []) = r3
+  cases r1 with
+  | error x => rfl
+  | ok pass =>
+    cases pass with
+    | false =>
+      simp only [bind, Except.bind, Bool.not_false, if_true, pure, Except.pure, Except.map]
+      simp [LoopState.fed, feedStop_nil]
+    | true =>
+      cases r2 with
+      | error x => rfl
+      | ok rowun =>
+        cases r3 with
+        | error x => rfl
+        | ok key =>
+          obtain ⟨row, un⟩ := rowun
+          simp only [bind, Except.bind, pure, Except.pure, Except.map, emitRows_eq]
+          cases un with
+          | none => simp
+          | some pl => simp
+
+theorem fed_nil (st : LoopState) : st.fed [] = st := by
+  cases st; simp [LoopState.fed, feedStop_nil]
+
+theorem fed_append_of_stop (st : LoopState) (hd tl : List (List Val × Row)) (hst : st.stop = false)
+    (h : (st.fed hd).stop = true) : st.fed (hd ++ tl) = st.fed hd := by
+  simp only [LoopState.fed, hst, Bool.false_or, Bool.not_eq_true'] at h
+  simp [LoopState.fed, feedStop_append, h]
+
+theorem fed_append_of_not_stop (st : LoopState) (hd tl : List (List Val × Row))
+    (h : (st.fed hd).stop = false) : st.fed (hd ++ tl) = (st.fed hd).fed tl := by
+  simp only [LoopState.fed, Bool.or_eq_false_iff, Bool.not_eq_false'] at h
+  simp [LoopState.fed, feedStop_append, h.1, h.2]
+
+/-- the environment of one join match -/
+def matchEnv (nr : Nat) (recA : Row) (m : Option Nat × Row) : Env :=
+  { nr := nr, a := recA, bnr := m.1, b := some m.2 }
+
+theorem projectEnvs_cons_ok {q : SemQuery} {e : Env} {es : List Env} {out : List (List Val × Row)}
+    (h : projectEnvs q (e :: es) = .ok out) :
+    ∃ hd tl, projectEnv q e = .ok hd ∧ projectEnvs q es = .ok tl ∧ out = hd ++ tl := by
+  simp only [projectEnvs] at h
+  cases h1 : projectEnv q e with
+  | error x => simp [h1, bind, Except.bind] at h
+  | ok hd =>
+    cases h2 : projectEnvs q es with
+    | error x => simp [h1, h2, bind, Except.bind] at h
+    | ok tl =>
+      simp only [h1, h2, bind, Except.bind, pure, Except.pure, Except.ok.injEq] at h
+      exact ⟨hd, tl, rfl, rfl, h.symm⟩
+
+/-- `processMatches` over the environments of one record, when nothing fails -/
+theorem processMatches_ok (q : SemQuery) (hagg : q.isAgg = false) (nr : Nat) (recA : Row)
+    (ms : List (Option Nat × Row)) (st : LoopState) (hnu : st.nu = 0) (hstop : st.stop = false)
+    (out : List (List Val × Row)) (h : projectEnvs q (ms.map (matchEnv nr recA)) = .ok out) :
+    processMatches q nr recA st ms = .ok (st.fed out) := by
+  induction ms generalizing st out with
+  | nil =>
+    simp only [List.map_nil, projectEnvs, Except.ok.injEq] at h
+    subst h
+    simp [processMatches, fed_nil]
+  | cons m rest ih =>
+    obtain ⟨bnr, recB⟩ := m
+    obtain ⟨hd, tl, h1, h2, rfl⟩ := projectEnvs_cons_ok h
+    have hsel : processSelect q st { nr := nr, a := recA, bnr := bnr, b := some recB, nu := st.nu } =
+        .ok (st.fed hd) := by
+      rw [processSelect_eq q hagg, hnu]
+      simp only [matchEnv] at h1
+      rw [h1]; rfl
+    simp only [processMatches, hsel, bind, Except.bind]
+    by_cases hs : (st.fed hd).stop = true
+    · simp only [hs, if_true, pure, Except.pure]
+      rw [fed_append_of_stop st hd tl hstop hs]
+    · simp only [Bool.not_eq_true] at hs
+      simp only [hs, Bool.false_eq_true, if_false]
+      rw [ih (st.fed hd) hnu hs tl h2, fed_append_of_not_stop st hd tl hs]
+
+/-- with the join map of `B`, `getRhs`/`lhsKey` compute exactly the expansion of the specification -/
+theorem expandRecord_join (q : SemQuery) (B : Table) (jm : JoinMap) (js : JoinSpec)
+    (hj : q.join = some js)
+    (hjm : jm.maxLen = maxWidth B ∧
+      ∀ key, jm.get key = (partnersSpec js.rhs B key).map (fun p => (p.1, p.2.length, p.2)))
+    (nr : Nat) (recA : Row) :
+    expandRecord q B nr recA = (do
+      let key ← liftErr nr (lhsKey js.lhs nr recA)
+      let ms ← liftErr nr (getRhs js.kind jm key)
+      pure (ms.map (matchEnv nr recA))) := by
+  unfold expandRecord
+  simp only [hj]
+  cases liftErr nr (lhsKey js.lhs nr recA) with
+  | error x => rfl
+  | ok key =>
+    simp only [bind, Except.bind, getRhs, hjm.2 key, hjm.1, List.map_map]
+    cases js.kind with
+    | inner =>
+      simp only [liftErr, pure, Except.pure, List.map_map]
+      rfl
+    | left =>
+      by_cases hp : partnersSpec js.rhs B key = []
+      · simp [hp, liftErr, pure, Except.pure, matchEnv]
+      · simp only [hp, if_false, liftErr, pure, Except.pure, List.map_eq_nil_iff, List.map_map]
+        rfl
+    | strictLeft =>
+      by_cases hp : (partnersSpec js.rhs B key).length = 1
+      · simp only [hp, if_true, liftErr, pure, Except.pure, List.length_map, List.map_map]
+        rfl
+      · simp only [hp, if_false, liftErr, List.length_map]
+
+theorem stepRecord_ok (q : SemQuery) (B : Table) (jm : JoinMap)
+    (hsel : q.isUpdate = false) (hagg : q.isAgg = false)
+    (hjm : ∀ js, q.join = some js → (jm.maxLen = maxWidth B ∧
+        ∀ key, jm.get key = (partnersSpec js.rhs B key).map (fun p => (p.1, p.2.length, p.2))))
+    (st : LoopState) (hnu : st.nu = 0) (hstop : st.stop = false) (nr : Nat) (recA : Row)
+    (envs : List Env) (out : List (List Val × Row))
+    (he : expandRecord q B nr recA = .ok envs) (hp : projectEnvs q envs = .ok out) :
+    stepRecord q jm st nr recA = .ok (st.fed out) := by
+  unfold stepRecord
+  simp only [hsel, Bool.false_eq_true, if_false]
+  cases hj : q.join with
+  | none =>
+    simp only [expandRecord, hj, Except.ok.injEq] at he
+    subst he
+    obtain ⟨hd, tl, h1, h2, rfl⟩ := projectEnvs_cons_ok hp
+    simp only [projectEnvs, Except.ok.injEq] at h2
+    subst h2
+    simp only [processSelect_eq q hagg, hnu, h1, List.append_nil]
+    rfl
+  | some js =>
+    rw [expandRecord_join q B jm js hj (hjm js hj)] at he
+    simp only
+    cases h1 : liftErr nr (lhsKey js.lhs nr recA) with
+    | error x => simp [h1, bind, Except.bind] at he
+    | ok key =>
+      cases h2 : liftErr nr (getRhs js.kind jm key) with
+      | error x => simp [h1, h2, bind, Except.bind] at he
+      | ok ms =>
+        simp only [h1, h2, bind, Except.bind, pure, Except.pure, Except.ok.injEq] at he
+        subst he
+        simp only [bind, Except.bind, h2]
+        exact processMatches_ok q hagg nr recA ms st hnu hstop out hp
+
+theorem mainLoop_of_stop (q : SemQuery) (jm : JoinMap) (A : Table) (nr : Nat) (st : LoopState)
+    (h : st.stop = true) : mainLoop q jm A nr st = .ok (st, nr) := by
+  cases A with
+  | nil => rfl
+  | cons a rest => simp [mainLoop, h]
+
+theorem emissions_cons_ok {q : SemQuery} {B : Table} {recA : Row} {rest : Table} {nr : Nat}
+    {es : List (List Val × Row)} (h : emissions q B (recA :: rest) nr = .ok es) :
+    ∃ envs hd tl, expandRecord q B (nr + 1) recA = .ok envs ∧ projectEnvs q envs = .ok hd ∧
+      emissions q B rest (nr + 1) = .ok tl ∧ es = hd ++ tl := by
+  simp only [emissions] at h
+  cases h0 : expandRecord q B (nr + 1) recA with
+  | error x => simp [h0, bind, Except.bind] at h
+  | ok envs =>
+    cases h1 : projectEnvs q envs with
+    | error x => simp [h0, h1, bind, Except.bind] at h
+    | ok hd =>
+      cases h2 : emissions q B rest (nr + 1) with
+      | error x => simp [h0, h1, h2, bind, Except.bind] at h
+      | ok tl =>
+        simp only [h0, h1, h2, bind, Except.bind, pure, Except.pure, Except.ok.injEq] at h
+        exact ⟨envs, hd, tl, rfl, h1, rfl, h.symm⟩
+
+/-- the bridge, generalised over the starting record number and loop state -/
+theorem mainLoop_fed (q : SemQuery) (B : Table) (jm : JoinMap)
+    (hsel : q.isUpdate = false) (hagg : q.isAgg = false)
+    (hjm : ∀ js, q.join = some js → (jm.maxLen = maxWidth B ∧
+        ∀ key, jm.get key = (partnersSpec js.rhs B key).map (fun p => (p.1, p.2.length, p.2))))
+    (A : Table) (nr : Nat) (st : LoopState) (hnu : st.nu = 0) (hstop : st.stop = false)
+    (es : List (List Val × Row)) (hes : emissions q B A nr = .ok es) :
+    ∃ n, mainLoop q jm A nr st = .ok (st.fed es, n) ∧ n ≤ nr + A.length := by
+  induction A generalizing nr st es with
+  | nil =>
+    simp only [emissions, Except.ok.injEq] at hes
+    subst hes
+    exact ⟨nr, by simp [mainLoop, fed_nil], by simp⟩
+  | cons recA rest ih =>
+    obtain ⟨envs, hd, tl, he, hp, ht, rfl⟩ := emissions_cons_ok hes
+    have hstep := stepRecord_ok q B jm hsel hagg hjm st hnu hstop (nr + 1) recA envs hd he hp
+    simp only [mainLoop, hstop, Bool.false_eq_true, if_false, hstep]
+    by_cases hs : (st.fed hd).stop = true
+    · refine ⟨nr + 1, ?_, by simp only [List.length_cons]; omega⟩
+      rw [mainLoop_of_stop q jm rest (nr + 1) _ hs, fed_append_of_stop st hd tl hstop hs]
+    · simp only [Bool.not_eq_true] at hs
+      obtain ⟨n, hn, hle⟩ := ih (nr + 1) (st.fed hd) hnu hs tl ht
+      refine ⟨n, ?_, by simp only [List.length_cons]; omega⟩
+      rw [hn, fed_append_of_not_stop st hd tl hs]
+
+theorem mainLoop_bridge (q : SemQuery) (A B : Table) (jm : JoinMap)
+    (hsel : q.isUpdate = false) (hagg : q.isAgg = false)
+    (hjm : ∀ js, q.join = some js → (jm.maxLen = maxWidth B ∧
+        ∀ key, jm.get key = (partnersSpec js.rhs B key).map (fun p => (p.1, p.2.length, p.2))))
+    (es : List (List Val × Row)) (hes : emissions q B A 0 = .ok es) (c0 : Chain) :
+    ∃ st n, mainLoop q jm A 0 { chain := c0 } = .ok (st, n) ∧ st.agg = none ∧ st.nu = 0 ∧
+      st.chain = (c0.feedStop es).1 ∧ n ≤ A.length := by
+  obtain ⟨n, hn, hle⟩ := mainLoop_fed q B jm hsel hagg hjm A 0 { chain := c0 } rfl rfl es hes
+  exact ⟨_, n, hn, rfl, rfl, rfl, by omega⟩
+
+/-! ## (3) errors name the first offending record -/
+
+/-- no TOP/LIMIT bound and a user writer that never refuses: no write through the chain is refused -/
+def Chain.NoRefuse (c : Chain) : Prop := c.sub.sub.top = none ∧ c.sub.sub.sink.refuseFrom = none
+
+theorem write_noRefuse (c : Chain) (h : c.NoRefuse) (k : List Val) (r : Row) :
+    (c.write k r).2 = true ∧ (c.write k r).1.NoRefuse := by
+  obtain ⟨sorted, ⟨dist, ⟨top, sink⟩⟩⟩ := c
+  obtain ⟨h1, h2⟩ := h
+  simp only at h1 h2
+  subst h1
+  cases sorted with
+  | some p => exact ⟨rfl, rfl, h2⟩
+  | none =>
+    cases dist with
+    | none =>
+      simp [Chain.write, DistLayer.write, TopLayer.write, Sink.write, h2, Chain.NoRefuse]
+    | uniq seen =>
+      by_cases hm : r ∈ seen
+      · simp [Chain.write, DistLayer.write, hm, Chain.NoRefuse, h2]
+      · simp [Chain.write, DistLayer.write, hm, TopLayer.write, Sink.write, h2, Chain.NoRefuse]
+    | uniqCount recs =>
+      simp [Chain.write, DistLayer.write, Chain.NoRefuse, h2]
+
+theorem feedStop_noRefuse (c : Chain) (h : c.NoRefuse) (xs : List (List Val × Row)) :
+    (c.feedStop xs).2 = true ∧ (c.feedStop xs).1.NoRefuse := by
+  induction xs generalizing c with
+  | nil => exact ⟨rfl, h⟩
+  | cons x xs ih =>
+    obtain ⟨k, r⟩ := x
+    obtain ⟨hw1, hw2⟩ := write_noRefuse c h k r
+    simp only [Chain.feedStop, hw1, if_true]
+    exact ih _ hw2
+
+theorem buildChain_noRefuse (q : SemQuery) (sink : Sink) (htop : q.top = none)
+    (hs : sink.refuseFrom = none) : (buildChain q sink).NoRefuse := by
+  unfold buildChain Chain.NoRefuse
+  by_cases hu : q.isUpdate = true
+  · simp [hu, hs]
+  · simp [hu, htop, hs]
+
+theorem fed_noRefuse (st : LoopState) (h : st.chain.NoRefuse) (out : List (List Val × Row)) :
+    (st.fed out).stop = st.stop ∧ (st.fed out).chain.NoRefuse := by
+  obtain ⟨h1, h2⟩ := feedStop_noRefuse st.chain h out
+  simp only [LoopState.fed, h1, Bool.not_true, Bool.or_false, true_and]
+  exact h2
+
+theorem processMatches_err (q : SemQuery) (hagg : q.isAgg = false) (nr : Nat) (recA : Row)
+    (ms : List (Option Nat × Row)) (st : LoopState) (hnu : st.nu = 0) (hstop : st.stop = false)
+    (hnr : st.chain.NoRefuse) (e : EngErr)
+    (h : projectEnvs q (ms.map (matchEnv nr recA)) = .error e) :
+    processMatches q nr recA st ms = .error e := by
+  induction ms generalizing st with
+  | nil => simp [projectEnvs] at h
+  | cons m rest ih =>
+    obtain ⟨bnr, recB⟩ := m
+    simp only [List.map_cons, projectEnvs] at h
+    have hsel : processSelect q st { nr := nr, a := recA, bnr := bnr, b := some recB, nu := st.nu } =
+        (projectEnv q (matchEnv nr recA (bnr, recB))).map st.fed := by
+      rw [processSelect_eq q hagg, hnu]; rfl
+    simp only [processMatches, hsel]
+    cases h1 : projectEnv q (matchEnv nr recA (bnr, recB)) with
+    | error x =>
+      simp only [h1, bind, Except.bind, Except.error.injEq] at h
+      subst h
+      rfl
+    | ok hd =>
+      cases h2 : projectEnvs q (rest.map (matchEnv nr recA)) with
+      | ok tl => simp [h1, h2, bind, Except.bind, pure, Except.pure] at h
+      | error x =>
+        simp only [h1, h2, bind, Except.bind, Except.error.injEq] at h
+        subst h
+        obtain ⟨f1, f2⟩ := fed_noRefuse st hnr hd
+        simp only [Except.map, bind, Except.bind, f1, hstop, Bool.false_eq_true, if_false]
+        exact ih (st.fed hd) hnu (f1.trans hstop) f2 h2
+
+theorem stepRecord_err_expand (q : SemQuery) (B : Table) (jm : JoinMap) (hsel : q.isUpdate = false)
+    (hjm : ∀ js, q.join = some js → (jm.maxLen = maxWidth B ∧
+        ∀ key, jm.get key = (partnersSpec js.rhs B key).map (fun p => (p.1, p.2.length, p.2))))
+    (st : LoopState) (nr : Nat) (recA : Row) (e : EngErr)
+    (he : expandRecord q B nr recA = .error e) :
+    stepRecord q jm st nr recA = .error e := by
+  unfold stepRecord
+  simp only [hsel, Bool.false_eq_true, if_false]
+  cases hj : q.join with
+  | none => simp [expandRecord, hj] at he
+  | some js =>
+    rw [expandRecord_join q B jm js hj (hjm js hj)] at he
+    simp only
+    cases h1 : liftErr nr (lhsKey js.lhs nr recA) with
+    | error x =>
+      simp only [h1, bind, Except.bind, Except.error.injEq] at he
+      subst he; rfl
+    | ok key =>
+      cases h2 : liftErr nr (getRhs js.kind jm key) with
+      | error x =>
+        simp only [h1, h2, bind, Except.bind, Except.error.injEq] at he
+        subst he
+        simp only [bind, Except.bind, h2]
+      | ok ms => simp [h1, h2, bind, Except.bind, pure, Except.pure] at he
+
+theorem stepRecord_err_project (q : SemQuery) (B : Table) (jm : JoinMap)
+    (hsel : q.isUpdate = false) (hagg : q.isAgg = false)
+    (hjm : ∀ js, q.join = some js → (jm.maxLen = maxWidth B ∧
+        ∀ key, jm.get key = (partnersSpec js.rhs B key).map (fun p => (p.1, p.2.length, p.2))))
+    (st : LoopState) (hnu : st.nu = 0) (hstop : st.stop = false) (hnr : st.chain.NoRefuse)
+    (nr : Nat) (recA : Row) (envs : List Env) (e : EngErr)
+    (he : expandRecord q B nr recA = .ok envs) (hp : projectEnvs q envs = .error e) :
+    stepRecord q jm st nr recA = .error e := by
+  unfold stepRecord
+  simp only [hsel, Bool.false_eq_true, if_false]
+  cases hj : q.join with
+  | none =>
+    simp only [expandRecord, hj, Except.ok.injEq] at he
+    subst he
+    simp only [projectEnvs] at hp
+    simp only [processSelect_eq q hagg, hnu]
+    cases h1 : projectEnv q { nr := nr, a := recA } with
+    | error x =>
+      simp only [h1, bind, Except.bind, Except.error.injEq] at hp
+      subst hp
+      rfl
+    | ok hd => simp [h1, bind, Except.bind, pure, Except.pure] at hp
+  | some js =>
+    rw [expandRecord_join q B jm js hj (hjm js hj)] at he
+    simp only
+    cases h1 : liftErr nr (lhsKey js.lhs nr recA) with
+    | error x => simp [h1, bind, Except.bind] at he
+    | ok key =>
+      cases h2 : liftErr nr (getRhs js.kind jm key) with
+      | error x => simp [h1, h2, bind, Except.bind] at he
+      | ok ms =>
+        simp only [h1, h2, bind, Except.bind, pure, Except.pure, Except.ok.injEq] at he
+        subst he
+        simp only [bind, Except.bind, h2]
+        exact processMatches_err q hagg nr recA ms st hnu hstop hnr e hp
+
+/-- the first-error statement, generalised over the starting record number and loop state -/
+theorem mainLoop_err (q : SemQuery) (B : Table) (jm : JoinMap)
+    (hsel : q.isUpdate = false) (hagg : q.isAgg = false)
+    (hjm : ∀ js, q.join = some js → (jm.maxLen = maxWidth B ∧
+        ∀ key, jm.get key = (partnersSpec js.rhs B key).map (fun p => (p.1, p.2.length, p.2))))
+    (A : Table) (nr : Nat) (st : LoopState) (hnu : st.nu = 0) (hstop : st.stop = false)
+    (hnr : st.chain.NoRefuse) (e : EngErr) (hes : emissions q B A nr = .error e) :
+    ∃ st' n, mainLoop q jm A nr st = .error (e, st', n) := by
+  induction A generalizing nr st with
+  | nil => simp [emissions] at hes
+  | cons recA rest ih =>
+    simp only [emissions] at hes
+    simp only [mainLoop, hstop, Bool.false_eq_true, if_false]
+    cases h0 : expandRecord q B (nr + 1) recA with
+    | error x =>
+      simp only [h0, bind, Except.bind, Except.error.injEq] at hes
+      subst hes
+      rw [stepRecord_err_expand q B jm hsel hjm st (nr + 1) recA x h0]
+      exact ⟨st, nr + 1, rfl⟩
+    | ok envs =>
+      cases h1 : projectEnvs q envs with
+      | error x =>
+        simp only [h0, h1, bind, Except.bind, Except.error.injEq] at hes
+        subst hes
+        rw [stepRecord_err_project q B jm hsel hagg hjm st hnu hstop hnr (nr + 1) recA envs x h0 h1]
+        exact ⟨st, nr + 1, rfl⟩
+      | ok hd =>
+        cases h2 : emissions q B rest (nr + 1) with
+        | ok tl => simp [h0, h1, h2, bind, Except.bind, pure, Except.pure] at hes
+        | error x =>
+          simp only [h0, h1, h2, bind, Except.bind, Except.error.injEq] at hes
+          subst hes
+          rw [stepRecord_ok q B jm hsel hagg hjm st hnu hstop (nr + 1) recA envs hd h0 h1]
+          obtain ⟨f1, f2⟩ := fed_noRefuse st hnr hd
+          exact ih (nr + 1) (st.fed hd) hnu (f1.trans hstop) f2 h2
+
+theorem mainLoop_first_error (q : SemQuery) (A B : Table) (jm : JoinMap)
+    (hsel : q.isUpdate = false) (hagg : q.isAgg = false) (htop : q.top = none)
+    (hjm : ∀ js, q.join = some js → (jm.maxLen = maxWidth B ∧
+        ∀ key, jm.get key = (partnersSpec js.rhs B key).map (fun p => (p.1, p.2.length, p.2))))
+    (e : EngErr) (hes : emissions q B A 0 = .error e) (sink : Sink) (hs : sink.refuseFrom = none) :
+    ∃ st n, mainLoop q jm A 0 { chain := buildChain q sink } = .error (e, st, n) :=
+  mainLoop_err q B jm hsel hagg hjm A 0 { chain := buildChain q sink } rfl rfl
+    (buildChain_noRefuse q sink htop hs) e hes
+
 end Rbql
